@@ -346,6 +346,20 @@ impl PartialOrd for Value {
 
 impl Ord for Value {
     fn cmp(&self, other: &Self) -> Ordering {
+        // Arrays and maps are compared entry by entry with `cmp` itself (maps through their
+        // key-sorted entries) so that the order is total and agrees with `==` even when some
+        // entries cannot be compared with `<`: sort/unique rely on that.
+        fn sorted(m: &Map) -> Vec<(&Key<'static>, &Value)> {
+            let mut entries: Vec<_> = m.iter().collect();
+            entries.sort_by_key(|e| e.0);
+            entries
+        }
+        match (&self.inner, &other.inner) {
+            (ValueInner::Array(a), ValueInner::Array(b)) => return a.cmp(b),
+            (ValueInner::Map(a), ValueInner::Map(b)) => return sorted(a).cmp(&sorted(b)),
+            _ => {}
+        }
+
         if let Some(res) = self.partial_cmp(other) {
             return res;
         }
